@@ -25,7 +25,7 @@ from . import shared
 SIZES = {"x": 4, "y": 2, "z": 3, "t": 2}
 LAB_X = [1, 0, 1, 2]
 LAB_XY = [[1, 0], [0, 1], [1, 1], [2, 0]]
-FUNCS = ["sum", "mean", "max", "min", "count", "var", "prod", "first", "last", "median", "any"]
+FUNCS = ["sum", "mean", "max", "min", "count", "var", "prod", "first", "last", "median", "any", "quantile", "quantile_vec"]
 
 
 def make_values(shape, kind):
@@ -90,6 +90,10 @@ def run_xr_case(case):
             kw["dim"] = dimarg
             reduce_ = list(dimarg)
         func = case["func"]
+        qarg = None
+        if func.startswith("quantile"):
+            qarg = 0.5 if func == "quantile" else [0.25, 0.75]
+            func = "quantile"
         skipna = case["skipna"]
         fkw = dict(kw)
         nkw = dict(kw)
@@ -101,6 +105,9 @@ def run_xr_case(case):
             nkw["min_count"] = case["min_count"]
         fkw["keep_attrs"] = case["keep_attrs"]
         nkw["keep_attrs"] = case["keep_attrs"]
+        if qarg is not None:
+            fkw["q"] = qarg
+            nkw["q"] = qarg
         with xr.set_options(use_flox=False):
             native = getattr(obj.groupby(grp), func)(**nkw)
         eg = {}
@@ -116,7 +123,8 @@ def run_xr_case(case):
         out["same_coords"] = bool(set(native.coords) == set(flox.coords) and all(np.array_equal(np.asarray(native[c]), np.asarray(flox[c])) and native[c].dims == flox[c].dims for c in native.coords))
         fvt = fv.transpose(*nv.dims) if set(nv.dims) == set(fv.dims) else fv
         out["same_values"] = bool(fvt.shape == nv.shape and np.allclose(np.asarray(nv, dtype=float), np.asarray(fvt, dtype=float), rtol=1e-12, atol=1e-12, equal_nan=True))
-        out["same_attrs"] = bool(dict(native.attrs) == dict(flox.attrs) and dict(nv.attrs) == dict(fv.attrs))
+        # the property compares attributes "with keep_attrs" only
+        out["same_attrs"] = bool(not case["keep_attrs"] or (dict(native.attrs) == dict(flox.attrs) and dict(nv.attrs) == dict(fv.attrs)))
         out["same_name"] = bool(nv.name == fv.name)
         out["bad_vars"] = []
         if case["dataset"]:
@@ -153,7 +161,7 @@ def run_xr_case(case):
             out["passthrough_ok"] = True
         # values = groupby_reduce on the underlying arrays (1-D grouper reduced over its own dim only)
         core_ok = True
-        if len(gdims) == 1 and dimarg == "default" and func not in ("median",):
+        if len(gdims) == 1 and dimarg == "default" and func not in ("median", "quantile"):
             ax = dims.index("x")
             arr = np.moveaxis(np.asarray(vals), ax, -1)
             name = func
@@ -184,8 +192,10 @@ def build(dims, grouper, dim_i, func, skipna, data, chunked, dataset, keep_attrs
     dimarg = options[dim_i % len(options)]
     if func in ("first", "last") and (dimarg != "default" or len(gd) > 1 or chunked):
         return None
-    if func == "median" and chunked:
+    if func in ("median", "quantile", "quantile_vec") and (chunked or data in ("bool",)):
         return None
+    if func in ("quantile", "quantile_vec") and dataset:
+        return None     # quantiles are exercised on DataArrays
     if func == "any" and data != "bool":
         return None
     if data == "bool" and func not in ("any", "sum", "count", "max"):
@@ -229,7 +239,7 @@ def run(ctx):
             continue
         line = {"id": len(lines), "objdims": rec["dims"], "gdims": rec["gdims"], "reduce": rec["reduce"], "gname": rec["gname"], "flox_dims": rec["flox_dims"],
                 "native_dims": rec["native_dims"], "same_coords": rec["same_coords"], "same_values": rec["same_values"], "same_attrs": rec["same_attrs"],
-                "same_name": rec["same_name"], "core_ok": rec["core_ok"], "passthrough_ok": rec["passthrough_ok"], "predict": True, "dataset": bool(rec["dataset"])}
+                "same_name": rec["same_name"], "core_ok": rec["core_ok"], "passthrough_ok": rec["passthrough_ok"], "predict": not rec["func"].startswith("quantile"), "dataset": bool(rec["dataset"])}
         owner[line["id"]] = brief
         lines.append(line)
         ctx.nontrivial(str(brief))
